@@ -433,8 +433,9 @@ def channel_rows(cirq, rng, per):
                         f'cirq.kraus(MeasurementGate(qid_shape={shape}, invert_mask={inv})) is not the list of projectors |i><i|', nontrivial=True))
     # RandomGateChannel over a unitary gate and over a channel
     ps = [0.0, 1.0, 0.25, 0.5] + [round(rng.random(), 4) for _ in range(per)]
-    for p in ps:
-        sub = gates.draw(rng, rng.choice(['XPow', 'YPow', 'HPow', 'ZPow', 'CZPow', 'Z4Pow', 'PhasedX']))
+    fixed_subs = ['Z4Pow', 'XPow', 'X4Pow', 'Z4Pow']        # the four fixed probabilities always meet qudit sub gates (every seed)
+    for pi, p in enumerate(ps):
+        sub = gates.draw(rng, fixed_subs[pi] if pi < len(fixed_subs) else rng.choice(['XPow', 'YPow', 'HPow', 'ZPow', 'CZPow', 'Z4Pow', 'X4Pow', 'PhasedX']))
         sg = sub.cirq_gate(cirq)
         N = int(np.prod(sub.shape))
         g = cirq.RandomGateChannel(sub_gate=sg, probability=p)
